@@ -103,6 +103,7 @@ type pathState struct {
 	nAsserts int
 	noIfConv bool
 	stubTaxHash bool
+	decided  map[int]bool // branch conditions already decided on this path (term id -> outcome)
 }
 
 const (
@@ -126,6 +127,16 @@ func (ps *pathState) decide(c *Term) bool {
 	if c.IsConst() {
 		return c.c == 1
 	}
+	// a condition already decided on this path (same hash-consed term, or its
+	// negation) is implied by the PC: no query, no decision
+	if v, ok := ps.decided[c.id]; ok {
+		return v
+	}
+	if c.op == OpNot {
+		if v, ok := ps.decided[c.args[0].id]; ok {
+			return !v
+		}
+	}
 	if ps.pos < len(ps.prefix) {
 		d := ps.prefix[ps.pos]
 		if d.Kind != 'b' {
@@ -135,9 +146,11 @@ func (ps *pathState) decide(c *Term) bool {
 		ps.trace = append(ps.trace, d)
 		if d.Val == 1 {
 			ps.addPC(c)
+			ps.decided[c.id] = true
 			return true
 		}
 		ps.addPC(ps.ts.Not(c))
+		ps.decided[c.id] = false
 		return false
 	}
 	ps.pos++
@@ -164,14 +177,17 @@ func (ps *pathState) decide(c *Term) bool {
 		ps.forks = append(ps.forks, alt)
 		ps.trace = append(ps.trace, Decision{Kind: 'b', Val: 1})
 		ps.addPC(c)
+		ps.decided[c.id] = true
 		return true
 	case okT:
 		ps.trace = append(ps.trace, Decision{Kind: 'b', Val: 1})
 		ps.addPC(c)
+		ps.decided[c.id] = true
 		return true
 	case okF:
 		ps.trace = append(ps.trace, Decision{Kind: 'b', Val: 0})
 		ps.addPC(ps.ts.Not(c))
+		ps.decided[c.id] = false
 		return false
 	}
 	panic(pathEnd{StInfeasible, "both branch outcomes unsat"})
